@@ -37,17 +37,24 @@ func runPrelude(pre []PreOp) func() {
 			buf := bytes.NewBuffer(append([]byte{}, op.W...))
 			_, _, _ = safely(func() error { return DecodeAny(obj, buf) })
 		case "unreg":
-			if s, ok := codec.Get(op.Algo); ok {
-				saved[op.Algo] = s
-				codec.Remove(op.Algo)
-			}
+			_, _, _ = safely(func() error {
+				if s, ok := codec.Get(op.Algo); ok {
+					saved[op.Algo] = s
+					codec.Remove(op.Algo)
+				}
+				return nil
+			})
 		}
 	}
 	return func() {
 		for name, s := range saved {
-			if _, ok := codec.Get(name); !ok {
-				codec.Registry(s)
-			}
+			name, s := name, s
+			_, _, _ = safely(func() error {
+				if _, ok := codec.Get(name); !ok {
+					codec.Registry(s)
+				}
+				return nil
+			})
 		}
 	}
 }
